@@ -302,6 +302,10 @@ func (s *Sim) runBias() bool {
 		return s.biasBatchedConf()
 	case BiasSlowApplier:
 		return s.biasSlowApplier()
+	case BiasLostVote:
+		return s.biasLostVote()
+	case BiasPendingReady:
+		return s.biasPendingReady()
 	}
 	return false
 }
@@ -821,4 +825,174 @@ func (s *Sim) biasBatchedConf() bool {
 	s.settle(s.allSet(), 60)
 	s.reunite()
 	return wonOld || won
+}
+
+func msgIs(t pb.MessageType, from, to uint64) func(m *pb.Message) bool {
+	return func(m *pb.Message) bool { return m.Type == t && m.From == from && m.To == to }
+}
+
+func (s *Sim) term(id uint64) uint64 { return s.nodes[id].rn.BasicStatus().Term }
+
+// flushPending acknowledges a Ready that the random phase left open on one of the nodes in set.
+func (s *Sim) flushPending(set idset) {
+	for id := uint64(1); id <= MaxID && s.viol == nil; id++ {
+		if set.has(id) && s.alive(id) && s.nodes[id].pending != nil {
+			s.doReady(id, readyFull)
+		}
+	}
+}
+
+// biasLostVote: two candidates a and b of the same term, and a voter y that already knows that term (it heard it from
+// b in the answer to a heartbeat) but has not voted in it. y grants a's request - a HardState in which only the vote
+// changes -, answers, loses power before anything else is written, comes back and is asked by b. A vote that was
+// answered has to be on the disk: otherwise y votes twice and the term has two leaders.
+func (s *Sim) biasLostVote() bool {
+	y, v, ok := s.prep()
+	if !ok || len(v) != 3 || !s.cfg.PreVote {
+		s.biasNote = "abort@40"
+		return false
+	}
+	all := s.allSet()
+	s.flushPending(all)
+	s.settle(all, 40)
+	f := without(v, y)
+	a, b := f[0], f[1]
+	t0 := s.term(y)
+	drain := func() { s.dropWhere(func(*pb.Message) bool { return true }) }
+	// a wins its pre-vote with b's help and becomes a candidate of t0+1; its requests stay in flight
+	s.doCampaign(a)
+	s.readyAll(setOf(a))
+	s.deliverWhere(msgIs(pb.MsgPreVote, a, b))
+	s.readyAll(setOf(b))
+	s.deliverWhere(msgIs(pb.MsgPreVoteResp, b, a))
+	s.readyAll(setOf(a))
+	// b wins its own pre-vote with y's help (y still leads t0) and becomes a candidate of t0+1 as well
+	s.doCampaign(b)
+	s.readyAll(setOf(b))
+	s.deliverWhere(msgIs(pb.MsgPreVote, b, y))
+	s.readyAll(setOf(y))
+	s.deliverWhere(msgIs(pb.MsgPreVoteResp, y, b))
+	s.readyAll(setOf(b))
+	if s.term(a) != t0+1 || s.term(b) != t0+1 || s.term(y) != t0 || !s.isLeader(y) {
+		drain()
+		s.biasNote = "abort@41"
+		return false
+	}
+	// y learns the new term from b's answer to a heartbeat: follower of t0+1, no vote cast. That is a term change
+	// and is synced.
+	s.doTick(y)
+	s.readyAll(setOf(y))
+	s.deliverWhere(msgIs(pb.MsgHeartbeat, y, b))
+	s.readyAll(setOf(b))
+	s.deliverWhere(msgIs(pb.MsgAppResp, b, y))
+	s.readyAll(setOf(y))
+	if s.term(y) != t0+1 || s.nodes[y].hs.Vote != 0 {
+		drain()
+		s.biasNote = "abort@42"
+		return false
+	}
+	// y votes for a and says so
+	s.deliverWhere(msgIs(pb.MsgVote, a, y))
+	s.readyAll(setOf(y))
+	if s.nodes[y].hs.Vote != a {
+		drain()
+		s.biasNote = "abort@43"
+		return false
+	}
+	s.deliverWhere(msgIs(pb.MsgVoteResp, y, a))
+	s.readyAll(setOf(a))
+	// power failure on y, then b's request arrives
+	s.flushPending(setOf(y))
+	s.doPowerLoss(y)
+	s.doRestart(y, false)
+	s.deliverWhere(msgIs(pb.MsgVote, b, y))
+	s.readyAll(setOf(y))
+	s.deliverWhere(msgIs(pb.MsgVoteResp, y, b))
+	s.readyAll(setOf(b))
+	done := s.isLeader(a)
+	drain()
+	s.settle(all, 40)
+	return done
+}
+
+// biasPendingReady: a follower f has handed out a Ready with the entries [A B C] and has not acknowledged it yet when
+// the leader of a newer term, which shares A and has B' C' after it, sends its append. The slice inside the Ready
+// must stay what was written to the log: Advance marks as stable what that slice says, and if the append had been
+// written through it, B' and C' would count as stored although the log still holds B and C.
+func (s *Sim) biasPendingReady() bool {
+	l, v, ok := s.prep()
+	if !ok || len(v) != 5 {
+		s.biasNote = "abort@50"
+		return false
+	}
+	all := s.allSet()
+	s.flushPending(all)
+	s.settle(all, 40)
+	o := without(v, l)
+	f, g := o[0], o[1]
+	rest := setOf(o[1:]...) // g and the two others
+	fSet, lSet := setOf(f), setOf(l)
+	base := s.lastIndex(l)
+	for _, id := range v {
+		if s.lastIndex(id) != base {
+			s.biasNote = "abort@51"
+			return false
+		}
+	}
+	// A reaches everybody; f has it in memory only, the others acknowledge it
+	s.doPropose(l)
+	s.readyAll(lSet)
+	s.deliverWhere(between(lSet, fSet|rest))
+	s.readyAll(rest)
+	s.deliverWhere(between(rest, lSet))
+	s.readyAll(lSet)
+	// B and C reach f only
+	s.doPropose(l)
+	s.doPropose(l)
+	s.readyAll(lSet)
+	s.deliverWhere(func(m *pb.Message) bool { return m.From == l && m.To == f && m.Type == pb.MsgApp })
+	s.dropWhere(between(lSet, rest))
+	if s.nodes[f].pending != nil || !s.nodes[f].rn.HasReady() {
+		s.biasNote = "abort@52"
+		s.reunite()
+		return false
+	}
+	// l is cut off; g wins with the votes of the two others and writes B' (its empty entry) and C'. f hears nothing of it.
+	s.isolate(l)
+	s.dropWhere(touching(fSet))
+	if !s.elect(g, rest, 3) {
+		s.biasNote = "abort@53"
+		s.reunite()
+		return false
+	}
+	s.dropWhere(touching(fSet))
+	s.doPropose(g)
+	s.settle(rest, 40)
+	s.dropWhere(touching(fSet))
+	hit := s.lastIndex(g) == base+3 && s.termAt(g, base+2) == s.term(g)
+	// g's heartbeat reaches f. f's next Ready carries the new term, [A B C] and the answer to the heartbeat; it is
+	// written and sent, but not acknowledged yet.
+	for r := 0; r < 3 && s.viol == nil; r++ {
+		s.doTick(g)
+		s.readyAll(setOf(g))
+		if s.deliverWhere(msgIs(pb.MsgHeartbeat, g, f)) > 0 {
+			break
+		}
+	}
+	s.doReady(f, readyHold)
+	if s.viol != nil || s.nodes[f].pending == nil || len(s.nodes[f].pending.Entries) < 3 || s.lastIndex(f) != base+3 {
+		s.biasNote = "abort@54"
+		hit = false
+	}
+	// the answer takes f out of g's probing state: g sends [B' C'] after A, and f handles that before Advance
+	s.deliverWhere(msgIs(pb.MsgHeartbeatResp, f, g))
+	s.readyAll(setOf(g))
+	if s.deliverWhere(msgIs(pb.MsgApp, g, f)) == 0 {
+		s.biasNote = "abort@55"
+		hit = false
+	}
+	s.flushPending(fSet)
+	s.reunite()
+	s.settle(all, 60)
+	return hit
 }
